@@ -140,4 +140,32 @@ SPECS = {
         "real": ["lerax Categorical/MultiCategorical/Bernoulli.mask, ActionLayer, MLPActorCriticPolicy, AbstractQPolicy.__call__, MLPQPolicy", "on-policy collection loop"],
         "stub": STUB_MDP[:2],
     },
+    "C06": {
+        "scenarios": [
+            {"name": "ring", "runs": {"quick": 150, "thorough": 1000000}, "chunks": {"quick": 2, "thorough": 2}},
+            {"name": "offpolicy", "runs": {"quick": 100, "thorough": 1000000}, "chunks": {"quick": 1, "thorough": 1}},
+        ],
+        "budget_s": {"quick": 600, "thorough": 1200},
+        "rule": "one evaluation = one seeded operation history: (ring) add / sample sequences with tagged rows on ReplayBuffers of capacity 1..12, "
+        "1..4 per-node buffers with different fill levels sampled jointly, checked after every operation against RefRing (deque(maxlen=C)); "
+        "(offpolicy) the buffers of the real DQN/SAC loops re-checked against the verified chain; non-trivial = a wrap, multi-wrap, partial fill "
+        "or differing fill levels occurred; distinct = distinct (shape class, fired event kinds)",
+        "assumptions": ["unwritten slots are recognisable because tags start at 1 and canonical fills decode to 0"],
+        "real": ["lerax ReplayBuffer.__init__/add/sample/current_size, AbstractBuffer.flatten_axes", "in vivo: off_policy collection"],
+        "stub": ["tagged rows generated by the simulator", "SimMDP / table policies in the in-vivo part"],
+    },
+    "C09": {
+        "scenarios": [
+            {"name": "update", "runs": {"quick": 60, "thorough": 1000000}, "chunks": {"quick": 2, "thorough": 2}},
+            {"name": "ring", "runs": {"quick": 100, "thorough": 1000000}, "chunks": {"quick": 1, "thorough": 1}},
+        ],
+        "budget_s": {"quick": 600, "thorough": 1200},
+        "rule": "one evaluation = one seeded run: (update) a fully tagged rollout delivered to the real PPO/A2C/REINFORCE train with SGD and a "
+        "sample-tagged policy; per-sample visit counts are read back from the trained parameters (exactly-once delivery), field alignment from the "
+        "misalignment penalty, approx_kl and the logged policy loss; (ring) flatten_axes / batch_indices / gather / batches / sample on tagged "
+        "RolloutBuffers with pytree observations; non-trivial = a remainder was dropped or several epochs ran; distinct = distinct (shape class, fired kinds, key)",
+        "assumptions": ["optax.sgd trusted", "fresh shuffle per epoch judged over >= 10 trainings per run (false-alarm probability < 1e-13)"],
+        "real": ["lerax PPO.train/train_epoch/train_batch/ppo_loss, A2C.train, REINFORCE.train, AbstractBuffer.flatten_axes/batch_indices/gather/batches, RolloutBuffer.sample"],
+        "stub": ["TagPolicy (one value-table entry per sample), tagged rollout built by the simulator"],
+    },
 }
